@@ -139,6 +139,9 @@ def run(ctx):
         _shell_witnesses(ctx, pl, per)
     # ---- R6 the radius used by the prefilter really encloses the shape ---------------------------------
     _enclosing(ctx)
+    # the periodic images really are the lattice translates of the placements (C14 obligations, necessary here)
+    from .C14 import import_into
+    import_into(ctx, 'LATTICE')
     # ---- FRAME ------------------------------------------------------------------------------------
     probs = positions_frames(f, ADT)
     rep.check(not probs, 'FRAME', 'placements-are-cartesian', ADT, 'cartesian_positions = relative_positions().map(to_cartesian_isometry); '
